@@ -14,10 +14,13 @@ import (
 	"encoding/xml"
 	"errors"
 	"fmt"
+	"hash/fnv"
 	"io"
 	"net/http"
 	"net/http/httptest"
 	"net/url"
+	"os"
+	"regexp"
 	"runtime"
 	"strings"
 	"sync"
@@ -641,8 +644,37 @@ func checkEcho(q echoReq, got echoResp) string {
 	return ""
 }
 
-// runEcho drives base with n client goroutines x per requests each.
-func runEcho(c *collector, res *vh.Result, base string, seed uint64, n, per int, tag string, distinct vh.Distinct) {
+var errIDJSON = regexp.MustCompile(`"id":"[^"]*"`)
+var errIDXML = regexp.MustCompile(`<id>[^<]*</id>`)
+
+// canonical is what a response shows, with the identifier that goa draws at random for an
+// error response projected away.
+func canonical(r echoResp) string {
+	body := r.Body
+	if strings.Contains(body, `"fault":`) {
+		body = errIDJSON.ReplaceAllString(body, `"id":"*"`)
+	}
+	if strings.Contains(body, "<fault>") {
+		body = errIDXML.ReplaceAllString(body, "<id>*</id>")
+	}
+	return fmt.Sprintf("%d|%s|%s|%s|%s", r.Status, r.CT, r.Headers["goa-view"], r.Headers["goa-error"], body)
+}
+
+func digest60(s string) uint64 {
+	h := fnv.New64a()
+	h.Write([]byte(s)) // nolint
+	return h.Sum64() & (1<<60 - 1)
+}
+
+// runEcho drives base with n client goroutines x per requests each. soloOut, if not empty,
+// receives the correspondence cases of Conc.value_isolation: the response obtained under
+// concurrency and the response to the same request replayed alone afterwards.
+func runEcho(c *collector, res *vh.Result, base string, seed uint64, n, per int, tag string, distinct vh.Distinct, soloOut string, soloMax int) {
+	type pair struct {
+		q   echoReq
+		got echoResp
+	}
+	kept := make([][]pair, n)
 	cl := &http.Client{Transport: &http.Transport{MaxIdleConnsPerHost: n, MaxConnsPerHost: 0}}
 	root := vh.NewRNG(seed)
 	rngs := make([]*vh.RNG, n)
@@ -662,6 +694,7 @@ func runEcho(c *collector, res *vh.Result, base string, seed uint64, n, per int,
 				c.fail("echo-mismatch/"+q.Kind, "response is not the function of its own request: "+bad, map[string]any{"request": q, "response": got})
 			}
 			c.eval(1)
+			kept[g] = append(kept[g], pair{q, got})
 			mu.Lock()
 			res.Count("echo_kind=" + q.Kind)
 			distinct.Add(q.Method + q.Path + q.Body + fmt.Sprint(q.Query))
@@ -671,6 +704,35 @@ func runEcho(c *collector, res *vh.Result, base string, seed uint64, n, per int,
 			mu.Unlock()
 		}
 	})
+	// every request again, alone: the concurrent answer must be the solo answer
+	if soloOut != "" {
+		var b strings.Builder
+		idx := 0
+		for k := 0; k < per && idx < soloMax; k++ {
+			for g := 0; g < n && idx < soloMax; g++ {
+				if k >= len(kept[g]) {
+					continue
+				}
+				p := kept[g][k]
+				alone, err := doEcho(cl, base, p.q)
+				if err != nil {
+					c.fail("echo-transport-error", err.Error(), p.q)
+					continue
+				}
+				cc, cs := canonical(p.got), canonical(alone)
+				if cc != cs {
+					c.fail("solo-differs/"+p.q.Kind, "the response obtained while other requests were in flight differs from the response to the same request sent alone", map[string]any{"request": p.q, "concurrent": p.got, "alone": alone})
+				}
+				fmt.Fprintf(&b, "(%d, %d%%N, %d%%N)\n", idx, digest60(cc), digest60(cs))
+				res.Cases = append(res.Cases, map[string]any{"request": p.q})
+				idx++
+			}
+		}
+		if err := os.WriteFile(soloOut, []byte(b.String()), 0o644); err != nil {
+			panic(err)
+		}
+		res.Dist["solo_replays_"+tag] = idx
+	}
 	cl.CloseIdleConnections()
 	_ = bytes.NewReader
 }
